@@ -86,6 +86,9 @@ class CondGen(object):
     def branch(self, depth):
         """content of one branch: marker + private counter step + optional nested stuff"""
         r = self.r
+        if r.random() < 0.08:
+            self.features.add('empty-branch')
+            return r.choice(['', '', ' '])
         name = 'zk' + alpha(self.nb)
         self.nb += 1
         self.branches.append(name)
@@ -158,8 +161,15 @@ class CondGen(object):
                 test = '\\ifx\\%s\\%s ' % (m1, m2)
                 self.features.add('ifx-macros')
         elif k == 'ifdefined':
-            if r.random() < 0.5 and (self.plainmacros or self.nums):
+            k2 = r.random()
+            if k2 < 0.4 and (self.plainmacros or self.nums):
                 nm = r.choice(sorted(list(self.plainmacros) + list(self.nums)))
+            elif k2 < 0.6:
+                # a name whose meaning is a primitive: \relax itself or a \let alias of it (defined, for TeX)
+                nm = r.choice(['relax', 'zqrlx', 'zqrlx'])
+                if nm == 'zqrlx':
+                    self.helpers.add('zqrlx')
+                self.features.add('ifdefined-relax-meaning')
             else:
                 nm = 'zqundef' + alpha(r.randint(0, 5))
             test = '\\ifdefined\\%s ' % nm
@@ -221,6 +231,8 @@ class CondGen(object):
             pre += '\\def\\%s{%s}' % (name, b)
         for sw in self.switches:
             pre += '\\newif\\%s ' % sw
+        if 'zqrlx' in self.helpers:
+            pre += '\\let\\zqrlx\\relax '
         if 'zqid' in self.helpers:
             pre += '\\def\\zqid#1{#1}'
         if 'zqtw' in self.helpers:
